@@ -44,7 +44,7 @@ VARIABLES
   subs,       \* set of subscriber ids  keys of spyServer.subs
   filt,       \* [s -> set of emitters] filters of the request        (domain = subscribers created so far)
   q,          \* [s -> Seq(vaa)]        sub.ch
-  pc,         \* [s -> "start" | "loop" | "send" | "exit" | "done"]
+  pc,         \* [s -> "start" | "invalid" | "loop" | "send" | "exit" | "done" | "refused"]
   cur,        \* [s -> Nil | vaa]       message taken from the queue, being sent on the stream
   mode,       \* [s -> "ok" | "stall" | "fail"]   what the client's stream does with a Send
   cancelled,  \* [s -> BOOLEAN]         stream context cancelled
@@ -59,8 +59,10 @@ vars == <<mu, subs, filt, q, pc, cur, mode, cancelled, lag, kicked, pub, publish
 Put(f, k, v) == [x \in DOMAIN f \cup {k} |-> IF x = k THEN v ELSE f[x]]
 Range(sq)    == {sq[i] : i \in 1..Len(sq)}
 
-\* A VAA is [id, em]; em = [c, a] is the (emitter chain, emitter address) pair.  A filter is such a pair.
-Match(s, v) == filt[s] = {} \/ v.em \in filt[s]
+\* A published message is [id, em, ok]: ok = the bytes decode as a VAA, em = [c, a] its (emitter chain, emitter address)
+\* pair (meaningless when ~ok).  A filter is such a pair.  Bytes that do not decode have no emitter, so no filter
+\* matches them; a subscriber without filters is owed every published byte string.
+Match(s, v) == filt[s] = {} \/ (v.ok /\ v.em \in filt[s])
 
 Reading(s) == mode[s] = "ok" /\ ~cancelled[s] /\ ~kicked[s] /\ pc[s] \in {"loop", "send"}
 CanDrop(s) == ~Reading(s) \/ lag[s]
@@ -74,10 +76,12 @@ Init ==
 ---------------------------------------------------------------------------
 (* Environment: the gRPC clients, the gossip side calling Publish *)
 
-\* A client opens a stream; the handler goroutine starts.
-SubscribeCalled(s, F) ==
+\* A client opens a stream; the handler goroutine starts.  valid = every filter entry of the request is of a kind the
+\* server knows; F = the emitter filters of the request.  (Which connection the stream came over is no parameter:
+\* subscriptions are independent of it.)
+SubscribeCalled(s, F, valid) ==
     /\ s \notin DOMAIN pc
-    /\ pc' = Put(pc, s, "start") /\ filt' = Put(filt, s, F) /\ q' = Put(q, s, <<>>) /\ cur' = Put(cur, s, Nil)
+    /\ pc' = Put(pc, s, IF valid THEN "start" ELSE "invalid") /\ filt' = Put(filt, s, F) /\ q' = Put(q, s, <<>>) /\ cur' = Put(cur, s, Nil)
     /\ mode' = Put(mode, s, "ok") /\ cancelled' = Put(cancelled, s, FALSE) /\ lag' = Put(lag, s, FALSE)
     /\ kicked' = Put(kicked, s, FALSE) /\ recv' = Put(recv, s, <<>>)
     /\ UNCHANGED <<mu, subs, pub, published>>
@@ -115,6 +119,14 @@ Cancel(s) ==
 
 ---------------------------------------------------------------------------
 (* Subscriber goroutine: SubscribeSignedVAA *)
+
+\* A request with a filter entry of an unknown kind is refused (InvalidArgument) before anything is registered: the
+\* client asked for a restriction the server cannot apply, and serving it as if the entry were absent would send it
+\* VAAs none of its filters matches.
+SubscribeRefused(s) ==
+    /\ s \in DOMAIN pc /\ pc[s] = "invalid"
+    /\ pc' = [pc EXCEPT ![s] = "refused"]
+    /\ UNCHANGED <<mu, subs, filt, q, cur, mode, cancelled, lag, kicked, pub, published, recv>>
 
 \* s.subsMu.Lock(); s.subs[id] = sub; s.subsMu.Unlock()
 SubRegister(s) ==
@@ -250,7 +262,7 @@ QueueFifo == [][QueueFifoStep]_vars
 \* ---- liveness (C20 independence half).  Fairness: the server's own goroutines are scheduled (weak
 \* fairness per step; strong for steps that compete for the mutex).  No fairness for the clients: a stalled
 \* subscriber may stay stalled for ever, nobody has to cancel, publish or subscribe.
-SubStep(s) == SubTake(s) \/ SubCtxDone(s) \/ SubKicked(s) \/ StreamSend(s) \/ StreamFail(s)
+SubStep(s) == SubscribeRefused(s) \/ SubTake(s) \/ SubCtxDone(s) \/ SubKicked(s) \/ StreamSend(s) \/ StreamFail(s)
 PubStep(S, P) == (\E s \in S : \E c \in P : PublishToChoice(s, c)) \/ PubUnlock \/ PublishReturned
 
 \* S: subscriber ids, P: the delivery policies the implementation uses (a subset of Choices)
@@ -265,8 +277,8 @@ Fairness(S, P) ==
 Known(s) == s \in DOMAIN pc
 
 PublishTerminates      == (pub.pc # "idle") ~> (pub.pc = "idle")
-SubscribeTerminatesFor(s) == (Known(s) /\ pc[s] = "start") ~> (Known(s) /\ pc[s] # "start")
-RemoveTerminatesFor(s)    == (Known(s) /\ (pc[s] = "exit" \/ cancelled[s])) ~> (Known(s) /\ pc[s] = "done")
+SubscribeTerminatesFor(s) == (Known(s) /\ pc[s] \in {"start", "invalid"}) ~> (Known(s) /\ pc[s] \notin {"start", "invalid"})
+RemoveTerminatesFor(s)    == (Known(s) /\ (pc[s] = "exit" \/ cancelled[s])) ~> (Known(s) /\ pc[s] \in {"done", "refused"})
 \* whatever is queued for a subscriber reaches its client unless the client stops reading (messages leave the
 \* queue only through SubTake and leave `cur` only into recv, or by a failed Send of a client that is gone)
 Pending(s) == q[s] # <<>> \/ cur[s] # Nil
